@@ -1007,15 +1007,63 @@ where
     }
 }
 
+/// `Setup::try_init_slot` on a finished builder, then the observations on the slot's erased runtime.
+fn finish_setup<TE, TF>(
+    setup: emit::Setup<TE, TF, TestCtxt, TestClock, emit::setup::DefaultRng>,
+    rest: &Rest,
+) -> Option<String>
+where
+    TE: Emitter + Send + Sync + 'static,
+    TF: Filter + Send + Sync + 'static,
+{
+    let slot = AmbientSlot::new();
+    let init = setup.try_init_slot(&slot)?;
+    let flush = |t: Duration| init.blocking_flush(t);
+    observe(init.get(), rest, Some(&flush))
+}
+
+fn split_and(s: &Sexp) -> Option<(&Sexp, &Sexp)> {
+    match s.as_tagged()? {
+        ("and", [a, b]) => Some((a, b)),
+        _ => None,
+    }
+}
+
 fn run_c01(line: &str) -> String {
     (|| -> Option<String> {
         let s = Sexp::parse(line)?;
-        let (f, e, rest) = parse_case(&s, |fs, es, c| {
-            let f = build_f(fs, c)?;
-            let e = build_e(es, c)?;
+        // a top-level `and` of a runtime built by `emit::setup()` is composed by the builder itself:
+        // emit_to(a).and_emit_to(b) / emit_when(a).and_emit_when(b) (src/setup.rs:152-230)
+        let ((fa, fb), (ea, eb), rest) = parse_case(&s, |fs, es, c| {
+            let by_setup = s.as_tagged()?.1.first()?.as_tagged()?.1.first()?.as_atom()? == "setup";
+            let f = match split_and(fs) {
+                Some((a, b)) if by_setup => {
+                    let a = build_f(a, c)?;
+                    (a, Some(build_f(b, c)?))
+                }
+                _ => (build_f(fs, c)?, None),
+            };
+            let e = match split_and(es) {
+                Some((a, b)) if by_setup => {
+                    let a = build_e(a, c)?;
+                    (a, Some(build_e(b, c)?))
+                }
+                _ => (build_e(es, c)?, None),
+            };
             Some((f, e))
         })?;
-        run_with(e, f, &rest)
+        if rest.rt_kind != "setup" {
+            return run_with(ea, fa, &rest);
+        }
+        let base = emit::setup().with_ctxt(TestCtxt(PropList(rest.amb.clone()))).with_clock(TestClock(rest.clk));
+        match (fb, eb) {
+            (None, None) => finish_setup(base.emit_to(ea).emit_when(fa), &rest),
+            (Some(fb), None) => finish_setup(base.emit_to(ea).emit_when(fa).and_emit_when(fb), &rest),
+            (None, Some(eb)) => finish_setup(base.emit_to(ea).and_emit_to(eb).emit_when(fa), &rest),
+            (Some(fb), Some(eb)) => {
+                finish_setup(base.emit_to(ea).and_emit_to(eb).emit_when(fa).and_emit_when(fb), &rest)
+            }
+        }
     })()
     .unwrap_or_else(|| "bad-case".into())
 }
@@ -1426,7 +1474,7 @@ fn g_clk(r: &mut Rng) -> Sexp {
 }
 
 fn g_emitter(r: &mut Rng, depth: usize, budget: &mut usize, t: u128, nested: &mut usize) -> Sexp {
-    if depth == 0 || *budget == 0 || r.chance(1, 6) {
+    if depth == 0 || *budget == 0 || r.chance(1, 9) {
         return match r.below(10) {
             0 => Sexp::atom("empty"),
             1 => Sexp::list(vec![Sexp::atom("none")]),
@@ -1435,8 +1483,8 @@ fn g_emitter(r: &mut Rng, depth: usize, budget: &mut usize, t: u128, nested: &mu
         };
     }
     *budget -= 1;
-    match r.below(20) {
-        0..=5 => Sexp::tagged(
+    match r.below(23) {
+        20..=22 | 0..=5 => Sexp::tagged(
             "and",
             vec![g_emitter(r, depth - 1, budget, t, nested), g_emitter(r, depth - 1, budget, t, nested)],
         ),
@@ -1532,10 +1580,10 @@ fn gen_c01(r: &mut Rng, tier: Tier, n: usize) -> Vec<String> {
     let max_depth = if tier == Tier::Thorough { 10 } else { 6 };
     let mut out = Vec::with_capacity(n);
     for i in 0..n {
-        let depth = 1 + r.usize(max_depth);
+        let depth = (1 + r.usize(max_depth)).max(1 + r.usize(max_depth));
         let t = g_timeout(r);
         let mut fb = if tier == Tier::Thorough { 40 } else { 14 };
-        let mut eb = if tier == Tier::Thorough { 60 } else { 18 };
+        let mut eb = if tier == Tier::Thorough { 60 } else { 22 };
         // every 10th case has a trivial filter or emitter so that the other side is seen in isolation
         let f = if i % 10 == 3 { Sexp::atom("empty") } else { g_filter(r, depth, &mut fb) };
         let mut nested = 0;
